@@ -387,6 +387,26 @@ def make_case(rng, i):
         case['text'] = {'cluster_group.tsv': 'cluster_id\tgroup\n0\tgood\n1\tmua\n'}
     if float_times_reject:
         case['expect_reject'] = True
+    if alf and i % 3 == 0:
+        # ALF files carrying a label between the attribute name and the extension (spikes.times.probe00.npy):
+        # found through the wildcard patterns
+        lab = rng.pick(['probe00', 'imec1', 'a'])
+        for name in [n for n in list(files) if n.startswith(('spikes.', 'channels.'))]:
+            files[name[:-4] + '.' + lab + '.npy'] = files.pop(name)
+        tags.append('alf_labelled_names')
+    if i % 19 == 5 and 'amplitudes.npy' in files:
+        # two candidate names for one attribute: the first pattern of the loader's list wins
+        files['spikes.amps.npy'] = F('float64', files['amplitudes.npy']['shape'], [7.25] * len(files['amplitudes.npy']['data']))
+        tags.append('two_candidates_amplitudes')
+    if i % 19 == 6 and 'channel_map.npy' in files:
+        files['channels.rawInd.npy'] = F('int32', files['channel_map.npy']['shape'], list(reversed(files['channel_map.npy']['data'])))
+        tags.append('two_candidates_channel_map')
+    if alf and i % 13 == 7:
+        st_ = files.get('spikes.times.npy')
+        if st_ is not None and len(st_['data']) >= 2 and st_['data'][0] != st_['data'][-1]:
+            st_['data'][0], st_['data'][-1] = st_['data'][-1], st_['data'][0]
+            case['expect_reject'] = True
+            tags.append('alf_non_monotonic')
     if i % 17 == 9 and any(n in files for n in ('spike_clusters.npy', 'spikes.clusters.npy')):
         # both a KiloSort-named and an ALF-named cluster file: the loader accepts only one
         other = 'spikes.clusters.npy' if 'spike_clusters.npy' in files else 'spike_clusters.npy'
